@@ -409,7 +409,7 @@ func vfRtoBFS(c *hx.Ctx, depth int) {
 	}
 	start := time.Now()
 	u := &hx.Unit{Name: name, Kind: "bfs", Exhaustive: true, Params: map[string]any{"depth": depth, "ack_timestamps": "now, now-1, -29, -1000, -20001, -30000, -59999, -60000, -60001, -2^31+1, now+1, 0, 0xffffffff",
-		"other_actions": "tick(interval), tick(rto), tick(61s), Send+flush", "modes": "nodelay 0 and 1"}}
+		"other_actions": "tick(interval), tick(rto), tick(61s), Send+flush, NoDelay(0,..), NoDelay(1,..)", "modes": "nodelay 0 and 1, switched during the run"}}
 	refTime = vrt.Epoch0
 	vrt.SetPoolMode(vrt.PoolPlain)
 	for nd := 0; nd < 2; nd++ {
@@ -436,8 +436,9 @@ func vfRtoBFS(c *hx.Ctx, depth int) {
 			path   string
 		}
 		type act struct {
-			name string
-			do   func(k *KCP, now *uint32)
+			name   string
+			do     func(k *KCP, now *uint32)
+			sample bool // the action makes the core take an RTT sample (an acknowledgement whose timestamp is not in the future)
 		}
 		mkActs := func(now uint32) []act {
 			var acts []act
@@ -446,13 +447,17 @@ func vfRtoBFS(c *hx.Ctx, depth int) {
 				off := off
 				acts = append(acts, act{fmt.Sprintf("ACK(oldest, ts=now%+d)", off), func(k *KCP, _ *uint32) {
 					k.Input(wire.EncodeSegment(wire.Seg{Conv: k.conv, Cmd: wire.CmdAck, Wnd: 32, Sn: k.snd_una, Una: k.snd_una, Ts: ts}, -1), IKCP_PACKET_REGULAR, false)
-				}})
+				}, _itimediff(now, ts) >= 0})
 			}
+			// the mode may be changed during the connection's life: the minimum follows the mode
 			acts = append(acts,
-				act{"tick(interval)+flush", func(k *KCP, n *uint32) { *n += k.interval; vfSetMs(*n); k.flush(IKCP_FLUSH_FULL) }},
-				act{"tick(rto)+flush", func(k *KCP, n *uint32) { *n += k.rx_rto + 1; vfSetMs(*n); k.flush(IKCP_FLUSH_FULL) }},
-				act{"tick(61s)+flush", func(k *KCP, n *uint32) { *n += 61000; vfSetMs(*n); k.flush(IKCP_FLUSH_FULL) }},
-				act{"Send+flush", func(k *KCP, n *uint32) { k.Send(make([]byte, 8)); k.flush(IKCP_FLUSH_FULL) }})
+				act{name: "NoDelay(0,10,2,1)", do: func(k *KCP, _ *uint32) { k.NoDelay(0, 10, 2, 1) }},
+				act{name: "NoDelay(1,10,2,1)", do: func(k *KCP, _ *uint32) { k.NoDelay(1, 10, 2, 1) }})
+			acts = append(acts,
+				act{name: "tick(interval)+flush", do: func(k *KCP, n *uint32) { *n += k.interval; vfSetMs(*n); k.flush(IKCP_FLUSH_FULL) }},
+				act{name: "tick(rto)+flush", do: func(k *KCP, n *uint32) { *n += k.rx_rto + 1; vfSetMs(*n); k.flush(IKCP_FLUSH_FULL) }},
+				act{name: "tick(61s)+flush", do: func(k *KCP, n *uint32) { *n += 61000; vfSetMs(*n); k.flush(IKCP_FLUSH_FULL) }},
+				act{name: "Send+flush", do: func(k *KCP, n *uint32) { k.Send(make([]byte, 8)); k.flush(IKCP_FLUSH_FULL) }})
 			return acts
 		}
 		// mat rebuilds a state that was kept as (parent, action); the copy stays with the state while its own children
@@ -490,7 +495,9 @@ func vfRtoBFS(c *hx.Ctx, depth int) {
 				a.do(k2, &n2)
 				u.Transitions++
 				path := s.path + " " + a.name
-				if k2.rx_rto < k2.rx_minrto || k2.rx_rto > IKCP_RTO_MAX {
+				// the value only changes when a sample is taken; right after a mode switch the old value may lie below the new
+				// mode's minimum until the next sample (mode switches are not what the bound quantifies over)
+				if (a.sample && k2.rx_rto < k2.rx_minrto) || k2.rx_rto > IKCP_RTO_MAX {
 					dupe := false
 					for _, v := range u.Violations {
 						dupe = dupe || v.Signature == "C18:rto-out-of-bounds:forged-or-aged-ack-timestamps"
@@ -501,7 +508,22 @@ func vfRtoBFS(c *hx.Ctx, depth int) {
 					}
 					continue
 				}
-				key := vfKCPKey(k2, n2)
+				modeMin := uint32(IKCP_RTO_MIN)
+				if k2.nodelay != 0 {
+					modeMin = IKCP_RTO_NDL
+				}
+				if a.sample && k2.rx_rto < modeMin {
+					dupe := false
+					for _, v := range u.Violations {
+						dupe = dupe || v.Signature == "C18:rto-below-the-minimum-of-the-current-mode"
+					}
+					if !dupe {
+						u.Violations = append(u.Violations, c.NewViolation(name, u.Params, "C18:rto-below-the-minimum-of-the-current-mode",
+							fmt.Sprintf("right after an RTT sample the core reports rto=%d; the mode is nodelay=%d, whose minimum is %d ms (the core's own floor is %d)", k2.rx_rto, k2.nodelay, modeMin, k2.rx_minrto), "path: "+path))
+					}
+					continue
+				}
+				key := vfKCPKey(k2, n2) ^ uint64(k2.nodelay)<<62 ^ uint64(k2.rx_minrto)<<48
 				if !visited[key] {
 					visited[key] = true
 					u.States++
